@@ -163,8 +163,13 @@ def namepreload(run, fx):
                 v = nf.strip_all_casts(e['c'][1])
                 txt = nf.render(v)
                 # a flag that is true whenever the pointer guard stays null, or an unconditional non-null
-                if v.get('v') == 1 or txt.startswith('!this->m_pNames') or txt == '!this->m_pNames':
+                # the flag is set to true, or to a test that is true exactly when another guard field stayed null
+                if v.get('v') == 1:
                     falsified = e
+                else:
+                    ats = [dom.norm(nf, a, p) for a, p in dom.atoms(nf, e['c'][1], True)]
+                    if len(ats) == 1 and ats[0][0] in guard_fields and ats[0][0] != l and ats[0][1] == '==' and ats[0][2] == '0':
+                        falsified = e
     if falsified:
         run.held('NAMEPRELOAD', 'nameTable asks once', nf.loc(falsified), 'guard %s falsified on every path after the lookup (%s)'
                  % (sorted(guard_fields), nf.render(falsified)))
